@@ -191,6 +191,17 @@ impl PdfError {
             _ => false
         }
     }
+    /// True if the error says that a referenced object does not exist (free entry, entry never
+    /// defined, number beyond the cross-reference table), however often it has been wrapped on the
+    /// way up by `t!` (`Try`) or by `Resolve::get` (`Shared`).
+    pub fn is_missing_object(&self) -> bool {
+        match self {
+            PdfError::NullRef { .. } | PdfError::FreeObject { .. } | PdfError::UnspecifiedXRefEntry { .. } => true,
+            PdfError::Try { ref source, .. } => source.is_missing_object(),
+            PdfError::Shared { ref source } => source.is_missing_object(),
+            _ => false
+        }
+    }
 }
 datasize::non_dynamic_const_heap_size!(PdfError, 0);
 
